@@ -179,6 +179,130 @@ def gen_cases(rng, v, spec, n):
     return out
 
 
+# ------------------------------------------------------------------ deterministic special-value grid (same for every seed)
+# givaro dispatches on isZero(operand) / the sign of an operand BEFORE it calls GMP, separately in every overload body, and the
+# dispatch branch has its own conversion of the word operand (Integer(l), mpz_set_si/ui, -n, ...).  A branch like that is hit only
+# when one operand is 0 (or +-1, or equal to the other operand) AND the other one sits at a limit of its C type.  Such a conjunction
+# is not left to the random generators: every call form gets the full product (pairwise covering above GRID_FULL cases) of the
+# special values of every operand position.
+_W = (2**31, 2**32 - 1, 2**63, 2**64 - 1)
+BIG_FULL = [0, 1, -1] + [s * w for w in _W for s in (1, -1)] + [2**64, -2**64]
+BIG_SMALL = [0, 1, -1, 2**31, -(2**32 - 1), 2**63, -2**63, 2**64 - 1, -2**64]
+WORD_SPECIAL = {
+    "u64": [0, 1, 2**31, 2**32 - 1, 2**63 - 1, 2**63, 2**64 - 1],
+    "i64": [0, 1, -1, 2**31, -2**31, 2**32 - 1, -(2**32 - 1), 2**63 - 1, -2**63 + 1, -2**63],
+    "u32": [0, 1, 2**31 - 1, 2**31, 2**32 - 1],
+    "i32": [0, 1, -1, 2**31 - 1, -2**31 + 1, -2**31],
+    "u16": [0, 1, 2**15, 2**16 - 1], "i16": [0, 1, -1, 2**15 - 1, -2**15],
+    "u8": [0, 1, 2**7, 2**8 - 1], "i8": [0, 1, -1, 2**7 - 1, -2**7],
+}
+DBL_SPECIAL = [0.0, 1.0, -1.0, 0.5, -0.5, 2.0**31, -2.0**31, 2.0**32 - 1, 2.0**32, 2.0**53, -2.0**53, 2.0**63, -2.0**63, 2.0**64]
+FLT_SPECIAL = [0.0, 1.0, -1.0, 0.5, -0.5, 2.0**24 - 1, 2.0**24, 2.0**31, -2.0**31, 2.0**32, 2.0**63, -2.0**63, 2.0**64]
+GRID_FULL = 720
+
+
+def special_list(kind, small=False):
+    big = BIG_SMALL if small else BIG_FULL
+    if kind in ("I", "Is"):
+        return list(big)
+    if kind == "N":
+        return sorted({abs(x) for x in big})
+    if kind == "P":
+        return sorted({abs(x) for x in big if x} | {2})
+    if kind in WORD_SPECIAL:
+        return list(WORD_SPECIAL[kind])
+    if kind.startswith("pe_"):      # powmod exponent: small ones and the limits of the carrying type
+        lo, hi = RANGE[kind[3:]]
+        return [0, 1, 2, 3, hi, hi - 1] + ([-1, -2, lo, lo + 1] if lo < 0 else [])
+    if kind.startswith("e_"):
+        return [0, 1, 2, 3, 5]
+    if kind.startswith("sh_"):
+        return [0, 1, 31, 32, 33, 63, 64, 65]
+    if kind == "idx":
+        return [0, 1, 2]
+    if kind == "base2":
+        return [2, 4, 8, 16, 32]
+    if kind.startswith("rt_"):
+        return [1, 2, 3, 5]
+    if kind.startswith("fa_"):
+        return [0, 1, 2, 12, 13, 20, 21, 22]
+    if kind == "alias":
+        return [0, 1]
+    if kind == "d":
+        return list(DBL_SPECIAL)
+    if kind == "f":
+        return list(FLT_SPECIAL)
+    raise KeyError(kind)
+
+
+def grid_lists(spec):
+    ks = spec["args"]
+    if "grid" in spec:
+        return [list(l) for l in spec["grid"]]
+    free = [k for k in ks if k != "alias"]
+    small = len(free) >= 3
+    lists = [special_list(k, small) for k in ks]
+    # "the other operand" and its negation as the value of every big-integer position
+    others = set()
+    for k, l in zip(ks, lists):
+        if k in WORD_SPECIAL or k.startswith("pe_"):
+            others |= {x for x in l} | {-x for x in l}
+        elif k in ("d", "f"):
+            others |= {int(x) for x in l if float(x).is_integer()}
+    if others and not small:
+        for i, k in enumerate(ks):
+            if k in ("I", "Is"):
+                lists[i] = lists[i] + sorted(others - set(lists[i]))
+            elif k == "N":
+                lists[i] = lists[i] + sorted({abs(x) for x in others} - set(lists[i]))
+    return lists
+
+
+def grid_cases(v, spec):
+    """deterministic cases of call form v: product of the special values of all operand positions"""
+    if "gridcases" in spec:
+        raw = [list(c) for c in spec["gridcases"]]
+    elif "gen" in spec:
+        return []
+    else:
+        lists = grid_lists(spec)
+        total = 1
+        for l in lists:
+            total *= len(l)
+        raw = []
+        if total <= GRID_FULL:
+            def rec(i, acc):
+                if i == len(lists):
+                    raw.append(list(acc)); return
+                for x in lists[i]:
+                    acc.append(x); rec(i + 1, acc); acc.pop()
+            rec(0, [])
+        else:       # pairwise covering: every pair of positions sees the full product, the others cycle
+            n = len(lists)
+            for i in range(n):
+                for j in range(i + 1, n):
+                    for ii, x in enumerate(lists[i]):
+                        for jj, y in enumerate(lists[j]):
+                            a = [lists[k][(3 * ii + 5 * jj + k) % len(lists[k])] for k in range(n)]
+                            a[i], a[j] = x, y
+                            raw.append(a)
+    dom = spec.get("griddom")
+    out, seen = [], set()
+    for a in raw:
+        if dom is not None:
+            a = dom(a)
+            if a is None:
+                continue
+        t = tuple(a)
+        if t in seen:
+            continue
+        seen.add(t)
+        if any(k in ("d", "f") and not math.isfinite(x) for k, x in zip(kinds(spec, a), a)):
+            continue
+        out.append(list(a))
+    return out
+
+
 # ------------------------------------------------------------------ the table
 VARIANTS = {}
 # repaired bodies: model name -> (file, signature, sha of the repaired body, model definition of the repaired body)
